@@ -39,13 +39,27 @@ theorem width_same_as_quantiles (start len : Nat) (prediction xform : Bool) (w w
 
 /-! ## rejection -/
 
-/-- "quantile levels outside (0,1) must be rejected": the call raises `ValueError` **iff** some requested level is
-`≤ 0` or `≥ 1` (or the list of levels is empty — `np.vstack([])`), for every entry point (they all are `getQuantiles`) -/
+/-- the check of the code is `not (0 < q < 1)`: a level passes iff *both* comparisons `0 < q` and `q < 1` hold.  Stated
+for an arbitrary comparison structure (no order axioms), so it also covers IEEE doubles, where every comparison with
+NaN is false: a NaN level — given directly or produced by `width = NaN` through `(1 - width)/2` — is rejected. -/
+theorem reject_unless_strictly_inside {β : Type} [Zero β] [One β] [Add β] [Sub β] [Mul β] [Div β] [LE β]
+    [DecidableLE β] [LT β] [DecidableLT β] (qs : List β) :
+    quantilesRejected qs = false ↔ (qs ≠ [] ∧ ∀ q ∈ qs, (0 : β) < q ∧ q < (1 : β)) := by
+  simp only [quantilesRejected, Bool.or_eq_false_iff, List.any_eq_false, List.isEmpty_eq_false_iff,
+    Bool.not_eq_true, badQuantile_eq_false_iff_lt]
+  exact And.comm
+
+/-- "quantile levels outside (0,1) must be rejected": the call raises `ValueError` **iff** some requested level is not
+strictly inside `(0,1)` (or the list of levels is empty — `np.vstack([])`), for every entry point (they all are
+`getQuantiles`) -/
 theorem reject_outside_unit (start len : Nat) (prediction xform : Bool) (width : ℝ)
     (quantiles : Option (List ℝ)) (rows : List (Nat → ℝ)) :
     getQuantiles normPpf tPpf fit start len prediction xform width quantiles rows = IvOut.valueError ↔
       (resolveQuantiles width quantiles = [] ∨
-        ∃ q ∈ resolveQuantiles width quantiles, (q ≤ 0 ∨ 1 ≤ q)) := by
+        ∃ q ∈ resolveQuantiles width quantiles, q ∉ Ioo (0 : ℝ) 1) := by
+  have hiff : ∀ q : ℝ, q ∉ Ioo (0 : ℝ) 1 ↔ (q ≤ 0 ∨ 1 ≤ q) := by
+    intro q; simp only [mem_Ioo, not_and_or, not_lt]
+  simp only [hiff]
   unfold getQuantiles
   simp only []
   by_cases h : quantilesRejected (resolveQuantiles width quantiles) = true
@@ -59,7 +73,9 @@ theorem reject_bad_quantile (start len : Nat) (prediction xform : Bool) (width :
     (qs : List ℝ) (rows : List (Nat → ℝ)) (q : ℝ) (hq : q ∈ qs) (hbad : q ≤ 0 ∨ 1 ≤ q) :
     getQuantiles normPpf tPpf fit start len prediction xform width (some qs) rows = IvOut.valueError :=
   (reject_outside_unit normPpf tPpf fit start len prediction xform width (some qs) rows).mpr
-    (Or.inr ⟨q, hq, hbad⟩)
+    (Or.inr ⟨q, hq, fun hin => by rcases hbad with h | h
+                                  · exact absurd hin.1 (not_lt.mpr h)
+                                  · exact absurd hin.2 (not_lt.mpr h)⟩)
 
 /-- "also through width": with `quantiles=None` the call raises `ValueError` exactly for the widths with `|w| ≥ 1`.
 (So `width = 1`, `1.5`, `-1` are rejected; `width = 0` and widths in `(-1, 0)` are *accepted* by the code: their levels
